@@ -121,6 +121,26 @@ fn gen_c16(o: &mut Out, tier: &str, seed: u64) {
     }
 }
 
+/// C17: the numeric values the TypeScript client declares, sent through the SDK's own readers and writers: every
+/// proof-type byte read back, a state of every proof type written and read (typed and header), every
+/// discriminator byte classified
+fn gen_c17(o: &mut Out, _tier: &str, seed: u64) {
+    let mut r = Rng::new(seed, "c17");
+    for b in 0..=255u32 {
+        o.op("ptype", &format!("state ptype {}", b));
+        o.op("type", &format!("ix type {}", hex(&[b as u8])));
+    }
+    for (pti, _, csz) in PT_SIZES {
+        for tb in 0..13 {
+            o.op("encode", &format!("state encode {} {} {} {}", pti, hex(&r.bytes(32)), tb, hex(&r.bytes(csz))));
+        }
+        // a zeroed account of the declared size (allocated, not yet written): reads as Uninitialized
+        let z = vec![0u8; 33 + csz];
+        o.op("zeroed-account", &format!("state decode {} {}", pti, hex(&z)));
+        o.op("zeroed-account", &format!("state meta {}", hex(&z)));
+    }
+}
+
 /// C06: every honest statement of all twelve instructions, proved by the Rust prover and by the
 /// model prover, verified by both verifiers; the two Pedersen generators byte-compared
 fn gen_c06(o: &mut Out, tier: &str, seed: u64) {
@@ -139,6 +159,7 @@ pub fn generate(prop: &str, tier: &str, seed: u64, w: &mut dyn Write) {
     match prop {
         "C15" => gen_c15(&mut o, tier, seed),
         "C16" => gen_c16(&mut o, tier, seed),
+        "C17" => gen_c17(&mut o, tier, seed),
         "C01" => crate::gen_sigma::gen_c01(&mut o, tier, seed),
         "C02" => crate::gen_sigma::gen_c02(&mut o, tier, seed),
         "C03" => crate::gen_sigma::gen_c03(&mut o, tier, seed),
